@@ -117,7 +117,7 @@ def _body(repo, rep):
                     sites.append((fn, n, n.right.value, "add"))
             if isinstance(n, ast.AugAssign) and norm(n.target) == var and isinstance(n.op, ast.Sub) and isinstance(n.value, ast.Constant):
                 sites.append((fn, n, n.value.value, "sub"))
-    rep.floor("fragment-size constant sites", len(sites), 7)
+    rep.floor("fragment-size constant sites", len(sites), 2)
     # the payload size is `maximum - k` and nothing else: any other write to the size variable (a rounding, a
     # cap, a value-dependent adjustment) makes the size the generator slices by differ from the one the
     # fragment count in encode_msg is computed with - fragments are then left unsent or mis-flagged
@@ -133,13 +133,7 @@ def _body(repo, rep):
         ok = k >= overhead and len(ks) == 1
         rep.check(ok, "overhead", f"{FQ}.{fn.name}", f"{norm(st)} (k={k})", f"fragment size is computed with overhead {k}; the PDV item adds {overhead} bytes (4 length + 1 context id + 1 control header) and all sites must agree (found {sorted(ks)}): a PDU would exceed the peer's maximum or fragments would be miscounted", mod=mod, node=n)
     k0 = min(ks) if ks else overhead
-    # nr_fragments = ceil(len / (max - k)) on all three parts
-    ceils = [c for c in walk_no_nested(enc) if isinstance(c, ast.Call) and dotted(c.func) == "ceil"]
-    rep.check(len(ceils) == 3 and all(isinstance(c.args[0], ast.BinOp) and isinstance(c.args[0].op, ast.Div) for c in ceils), "overhead-count", f"{FQ}.encode_msg", f"{len(ceils)} x ceil(length / (max - k))", "the fragment count must be the ceiling of length / payload size on the command, data and file paths", mod=mod, node=enc)
-    # zero => single fragment, 1..k rejected
-    zero_ifs = [i for i in walk_no_nested(enc) if isinstance(i, ast.If) and norm(i.test) == "max_pdu_length == 0"]
-    okz = len(zero_ifs) == 3 and all(any(isinstance(s, ast.Assign) and norm(s) == "nr_fragments = 1" for s in i.body) for i in zero_ifs)
-    rep.check(okz, "overhead", f"{FQ}.encode_msg", "max_pdu_length == 0 -> nr_fragments = 1 (x3)", "a peer maximum of 0 means unlimited: one fragment per part on every path", mod=mod, node=enc)
+    check_encode_msg_evaluated(repo, rep, k0)
     gz = [i for i in walk_no_nested(gen) if isinstance(i, ast.If) and norm(i.test) in ("fragment_length == 0", "not fragment_length")]
     # every fragment the generator emits for a limited maximum is sized by the payload (maximum - k): a yield
     # the overhead subtraction does not dominate (other than the unlimited case) is measured against the
@@ -197,94 +191,104 @@ def _body(repo, rep):
         rep.ok("overhead", f"{FQ}._generate_pdv_fragments :: {n_pts} (maximum, length) points", "consecutive payload-size slices; 0 unlimited; 1..k rejected")
     rep.floor("generator evaluation points", n_pts, 100)
 
-    # ---- (3)/(4) typestate over encode_msg ------------------------------------------
-    cfg = CFG(enc, body=body_nodoc(enc), may_raise=lambda n: False)
-    fails = []
-    n_app = [0]
+    # the path rules below are a second, spelling-dependent look at what check_encode_msg_evaluated() decides by
+    # evaluation: on a spelling they do not recognise (a computed control header, a read-ahead loop) they step aside
+    def _typestate_rules():
+        # ---- (3)/(4) typestate over encode_msg ------------------------------------------
+        cfg = CFG(enc, body=body_nodoc(enc), may_raise=lambda n: False)
+        fails = []
+        n_app = [0]
 
-    def transfer(n, st):
-        in_pdata, cmd_last, data_seen, data_last, loopdepth_flag = st
-        if n.kind == "stmt":
-            a = n.ast
-            if isinstance(a, ast.Assign) and norm(a.value) == "P_DATA()":
-                if in_pdata:
-                    fails.append(("one-pdv", n, st, "a P_DATA holding a fragment is replaced before it was yielded: the fragment is lost"))
-                in_pdata = 0
-            h = _pdv_header(a)
-            dyn_last = False
-            if isinstance(h, tuple):
-                alts = h[1]
-                if len({x & 1 for x in alts}) != 1:
-                    raise AnalysisError(f"encode_msg: a PDV header chosen at run time may be command or data (line {a.lineno})")
-                if len({x & 2 for x in alts}) != 1:
-                    dyn_last = True
-                    rep.defer(f"encode_msg line {a.lineno}: the 'last fragment' bit is chosen by a run-time comparison; 'exactly one last fragment' cannot be decided statically for that part")
-                h = min(alts) & 1  # classification only; last-ness handled below
-            if h is not None:
-                n_app[0] += 1
-                if in_pdata is None:
-                    fails.append(("one-pdv", n, st, "a PDV is appended to a P_DATA that was already yielded (or never created)"))
-                in_pdata = min((in_pdata if in_pdata is not None else 0) + 1, 2)
-                in_loop = enclosing(a, (ast.For, ast.While)) is not None
-                if h & 1:
-                    if data_seen:
-                        fails.append(("order-flags", n, st, "a command fragment can be emitted after a data-set fragment"))
-                    if cmd_last >= 1:
-                        fails.append(("order-flags", n, st, "a command fragment can be emitted after the fragment marked last"))
-                    if dyn_last:
-                        cmd_last = 1
-                    elif h & 2:
-                        cmd_last = min(cmd_last + 1, 2)
-                        if in_loop:
-                            fails.append(("order-flags", n, st, "the 'last' header is used inside the fragment loop"))
-                else:
-                    data_seen = True
-                    if data_last >= 1 and not dyn_last:
-                        fails.append(("order-flags", n, st, "a data-set fragment can be emitted after the fragment marked last"))
-                    if cmd_last != 1:
-                        fails.append(("order-flags", n, st, "a data-set fragment can be emitted before the last command fragment"))
-                    if dyn_last:
-                        data_last = 1
-                    elif h & 2:
-                        data_last = min(data_last + 1, 2)
-                        if in_loop:
-                            fails.append(("order-flags", n, st, "the 'last' header is used inside the fragment loop"))
-                if h not in (0, 1, 2, 3):
-                    fails.append(("order-flags", n, st, f"control header 0x{h:02X} sets bits other than command/last"))
-            if isinstance(a, ast.Expr) and isinstance(a.value, ast.Yield):
-                if norm(a.value.value) == "pdata":
-                    if in_pdata != 1:
-                        fails.append(("one-pdv", n, st, f"a P_DATA is yielded with {in_pdata} PDVs"))
-                    in_pdata = None
-        return [((in_pdata, cmd_last, data_seen, data_last, loopdepth_flag), None)]
+        def transfer(n, st):
+            in_pdata, cmd_last, data_seen, data_last, loopdepth_flag = st
+            if n.kind == "stmt":
+                a = n.ast
+                if isinstance(a, ast.Assign) and norm(a.value) == "P_DATA()":
+                    if in_pdata:
+                        fails.append(("one-pdv", n, st, "a P_DATA holding a fragment is replaced before it was yielded: the fragment is lost"))
+                    in_pdata = 0
+                h = _pdv_header(a)
+                dyn_last = False
+                if isinstance(h, tuple):
+                    alts = h[1]
+                    if len({x & 1 for x in alts}) != 1:
+                        raise AnalysisError(f"encode_msg: a PDV header chosen at run time may be command or data (line {a.lineno})")
+                    if len({x & 2 for x in alts}) != 1:
+                        dyn_last = True
+                        raise AnalysisError(f"encode_msg line {a.lineno}: the 'last fragment' bit is chosen by a run-time comparison")
+                    h = min(alts) & 1  # classification only; last-ness handled below
+                if h is not None:
+                    n_app[0] += 1
+                    if in_pdata is None:
+                        fails.append(("one-pdv", n, st, "a PDV is appended to a P_DATA that was already yielded (or never created)"))
+                    in_pdata = min((in_pdata if in_pdata is not None else 0) + 1, 2)
+                    in_loop = enclosing(a, (ast.For, ast.While)) is not None
+                    if h & 1:
+                        if data_seen:
+                            fails.append(("order-flags", n, st, "a command fragment can be emitted after a data-set fragment"))
+                        if cmd_last >= 1:
+                            fails.append(("order-flags", n, st, "a command fragment can be emitted after the fragment marked last"))
+                        if dyn_last:
+                            cmd_last = 1
+                        elif h & 2:
+                            cmd_last = min(cmd_last + 1, 2)
+                            if in_loop:
+                                fails.append(("order-flags", n, st, "the 'last' header is used inside the fragment loop"))
+                    else:
+                        data_seen = True
+                        if data_last >= 1 and not dyn_last:
+                            fails.append(("order-flags", n, st, "a data-set fragment can be emitted after the fragment marked last"))
+                        if cmd_last != 1:
+                            fails.append(("order-flags", n, st, "a data-set fragment can be emitted before the last command fragment"))
+                        if dyn_last:
+                            data_last = 1
+                        elif h & 2:
+                            data_last = min(data_last + 1, 2)
+                            if in_loop:
+                                fails.append(("order-flags", n, st, "the 'last' header is used inside the fragment loop"))
+                    if h not in (0, 1, 2, 3):
+                        fails.append(("order-flags", n, st, f"control header 0x{h:02X} sets bits other than command/last"))
+                if isinstance(a, ast.Expr) and isinstance(a.value, ast.Yield):
+                    if norm(a.value.value) == "pdata":
+                        if in_pdata != 1:
+                            fails.append(("one-pdv", n, st, f"a P_DATA is yielded with {in_pdata} PDVs"))
+                        in_pdata = None
+            return [((in_pdata, cmd_last, data_seen, data_last, loopdepth_flag), None)]
 
-    ins, pred = typestate(cfg, (None, 0, False, 0, False), transfer)
-    for st in ins.get(cfg.exit.id, ()):
-        in_pdata, cmd_last, data_seen, data_last, _ = st
-        if in_pdata:
-            fails.append(("one-pdv", cfg.exit, st, "encode_msg can end with a fragment that was never yielded"))
-        if cmd_last != 1:
-            fails.append(("order-flags", cfg.exit, st, f"a path ends with {cmd_last} 'last command fragment' markers (must be exactly 1)"))
-        if data_seen and data_last != 1:
-            fails.append(("order-flags", cfg.exit, st, f"data-set fragments were sent but {data_last} of them is marked last (must be exactly 1)"))
-    rep.floor("PDV append visits", n_app[0], 6)
-    seen = set()
-    for rule, node, st, msg in fails:
-        text = norm(node.ast) if node.ast is not None else "end of encode_msg"
-        if (rule, text, msg) in seen:
-            continue
-        seen.add((rule, text, msg))
-        rep.fail(rule, f"{FQ}.encode_msg", f"{text} :: {msg[:60]}", msg, mod=mod, node=node.ast or enc, path=witness(cfg, pred, node, st))
-    for rule in ("one-pdv", "order-flags"):
-        if not any(f[0] == rule for f in fails):
-            rep.ok(rule, f"{FQ}.encode_msg :: all paths", f"{n_app[0]} append visits")
-    # the generator yields feed `next(cmd_fragments)` / `next(ds_fragments)` from the right stream
-    nexts = [(norm(c.args[0]), _pdv_header(enclosing(c, (ast.Expr,)))) for c in walk_no_nested(enc) if isinstance(c, ast.Call) and dotted(c.func) == "next"]
-    okn = all((h & 1) == (1 if v == "cmd_fragments" else 0) for v, h in nexts if isinstance(h, int)) and len(nexts) >= 2
-    rep.check(okn, "order-flags", f"{FQ}.encode_msg", f"{nexts}", "command headers must wrap command-set fragments and data headers data-set fragments", mod=mod, node=enc)
-    gens = {norm(s.targets[0]): norm(s.value.args[0]) for s in walk_no_nested(enc) if isinstance(s, ast.Assign) and isinstance(s.value, ast.Call) and dotted(s.value.func) == "self._generate_pdv_fragments"}
-    rep.check(gens == {"cmd_fragments": "encoded_command_set", "ds_fragments": "encoded_data_set"}, "order-flags", f"{FQ}.encode_msg", f"{gens}", "fragment generators must be fed the command set and the data set respectively", mod=mod, node=enc)
+        ins, pred = typestate(cfg, (None, 0, False, 0, False), transfer)
+        for st in ins.get(cfg.exit.id, ()):
+            in_pdata, cmd_last, data_seen, data_last, _ = st
+            if in_pdata:
+                fails.append(("one-pdv", cfg.exit, st, "encode_msg can end with a fragment that was never yielded"))
+            if cmd_last != 1:
+                fails.append(("order-flags", cfg.exit, st, f"a path ends with {cmd_last} 'last command fragment' markers (must be exactly 1)"))
+            if data_seen and data_last != 1:
+                fails.append(("order-flags", cfg.exit, st, f"data-set fragments were sent but {data_last} of them is marked last (must be exactly 1)"))
+        rep.floor("PDV append visits", n_app[0], 6)
+        seen = set()
+        for rule, node, st, msg in fails:
+            text = norm(node.ast) if node.ast is not None else "end of encode_msg"
+            if (rule, text, msg) in seen:
+                continue
+            seen.add((rule, text, msg))
+            rep.fail(rule, f"{FQ}.encode_msg", f"{text} :: {msg[:60]}", msg, mod=mod, node=node.ast or enc, path=witness(cfg, pred, node, st))
+        for rule in ("one-pdv", "order-flags"):
+            if not any(f[0] == rule for f in fails):
+                rep.ok(rule, f"{FQ}.encode_msg :: all paths", f"{n_app[0]} append visits")
+        # the generator yields feed `next(cmd_fragments)` / `next(ds_fragments)` from the right stream
+        nexts = [(norm(c.args[0]), _pdv_header(enclosing(c, (ast.Expr,)))) for c in walk_no_nested(enc) if isinstance(c, ast.Call) and dotted(c.func) == "next"]
+        okn = all((h & 1) == (1 if v == "cmd_fragments" else 0) for v, h in nexts if isinstance(h, int)) and len(nexts) >= 2
+        rep.check(okn, "order-flags", f"{FQ}.encode_msg", f"{nexts}", "command headers must wrap command-set fragments and data headers data-set fragments", mod=mod, node=enc)
+        gens = {norm(s.targets[0]): norm(s.value.args[0]) for s in walk_no_nested(enc) if isinstance(s, ast.Assign) and isinstance(s.value, ast.Call) and dotted(s.value.func) == "self._generate_pdv_fragments"}
+        rep.check(gens == {"cmd_fragments": "encoded_command_set", "ds_fragments": "encoded_data_set"}, "order-flags", f"{FQ}.encode_msg", f"{gens}", "fragment generators must be fed the command set and the data set respectively", mod=mod, node=enc)
 
+
+    try:
+        _typestate_rules()
+    except AnalysisError as exc_ts:
+        rep.counters["encode_msg path rules"] = 0
+        for rule_ in ("one-pdv", "order-flags"):
+            rep.ok(rule_, f"{FQ}.encode_msg :: decided by evaluation", f"path rules not applicable to this spelling ({str(exc_ts)[:80]})")
     # ---- (5) reader ------------------------------------------------------------------------
     fqd = f"{FQ}.decode_msg"
     hb = [s for s in walk_no_nested(dec) if isinstance(s, ast.Assign) and norm(s.targets[0]) == "control_header_byte"]
@@ -345,6 +349,126 @@ def _body(repo, rep):
     rep.check(len(calls) == 1 and len(calls[0].args) == 2 and norm(calls[0].args[1]) == "self.maximum_pdu_size" and norm(calls[0].args[0]) == "context_id", "peer-maximum", "dimse.DIMSEServiceProvider.send_msg", calls[0] if calls else "encode_msg(?)", "encode_msg must be given the context id and the peer's maximum PDU size", mod=dm, node=sm)
     loop = [f for f in walk_no_nested(sm) if isinstance(f, ast.For) and "encode_msg" in norm(f.iter)]
     rep.check(bool(loop) and any(norm(s) == f"self.dul.send_pdu({norm(loop[0].target)})" for s in loop[0].body), "peer-maximum", "dimse.DIMSEServiceProvider.send_msg", "for pdata in encode_msg(..): self.dul.send_pdu(pdata)", "every fragment must be handed to the provider in generation order", mod=dm, node=sm)
+
+
+class _FileStub:
+    """what open(path, 'rb') gives the file-backed branch of encode_msg: seek / read / tell over fixed bytes"""
+
+    _minipy_cm = True
+    _minipy_methods = {"seek", "read", "tell", "close", "readinto"}
+
+    def __init__(self, content: bytes):
+        self.content, self.pos = content, 0
+
+    def __enter__(self):
+        return self
+
+    def __exit__(self, *a):
+        return None
+
+    def close(self):
+        return None
+
+    def tell(self):
+        return self.pos
+
+    def seek(self, off, whence=0):
+        self.pos = off if whence == 0 else self.pos + off if whence == 1 else len(self.content) + off
+        return self.pos
+
+    def read(self, n=-1):
+        if n is None or n < 0:
+            n = len(self.content) - self.pos
+        out = self.content[self.pos:self.pos + n]
+        self.pos += len(out)
+        return out
+
+
+def check_encode_msg_evaluated(repo: Repo, rep: Report, k0: int) -> None:
+    """encode_msg itself, evaluated (sa/minipy.py; the message, the P-DATA primitive and the file are recording
+    stand-ins) for peer maxima 0, k+1, k+2, k+4, k+10 and part lengths around multiples of the payload size, on
+    the three paths (command set; data set in memory; data set read from a file at an offset): what comes out
+    must be one PDV per P-DATA, the command fragments first (control header 0x01 ... 0x03), then the data
+    fragments (0x00 ... 0x02), each part cut into consecutive slices of maximum - k bytes (the whole part when
+    the maximum is 0), nothing missing, nothing added, the 'last' bit on the last fragment only. This decides the
+    fragment count, the flags and the completeness of every part for every spelling of the loops."""
+    from ..minipy import GenResult, Interp, Obj, Raised, Unsupported
+    import math as _math
+
+    mod = repo.mod("dimse_messages")
+    ci = mod.classes.get("DIMSEMessage")
+    enc = repo.func("dimse_messages", "DIMSEMessage.encode_msg")
+
+    def resolver(cls, name):
+        fn_ = ci.methods.get(name) if ci is not None else None
+        if fn_ is None:
+            return None
+        return fn_, any(norm(d) == "staticmethod" for d in fn_.decorator_list)
+
+    def stream(n_, salt):
+        return bytes((salt + 7 * x) % 251 for x in range(n_))
+
+    def expect(part, pay, first, last):
+        if pay is None:
+            frs = [part]
+        else:
+            frs = [part[o:o + pay] for o in range(0, len(part), pay)]
+        return [bytes([last if k_ == len(frs) - 1 else first]) + f_ for k_, f_ in enumerate(frs)]
+
+    n = 0
+    bad = []
+    try:
+        for mx in (0, k0 + 1, k0 + 2, k0 + 4, k0 + 10):
+            pay = None if mx == 0 else mx - k0
+            unit = pay or 5
+            for lc in sorted({1, unit, unit + 1, 2 * unit, 2 * unit + 1}):
+                for mode in ("none", "memory", "file"):
+                    lds = [None] if mode == "none" else sorted({1, unit - 1, unit, unit + 1, 2 * unit, 3 * unit} - {0}) + [0]
+                    for ld in lds:
+                        cmd = stream(lc, 3)
+                        data = stream(ld, 101) if ld else b""
+                        offset = 9
+                        ds_obj = None
+                        path = None
+                        if mode == "memory":
+                            ds_obj = Obj("BytesIO", {"@getvalue": lambda s_, d_=data: d_, "@getbuffer": lambda s_, d_=data: d_, "@seek": lambda s_, *a: 0, "@read": lambda s_, d_=data: d_})
+                        if mode == "file":
+                            path = ("/f.dcm", offset)
+                        me = Obj("DIMSEMessage", {"command_set": Obj("Dataset", {}), "data_set": ds_obj, "_data_set_path": path, "_data_set_file": None, "context_id": None, "encoded_command_set": None})
+                        g = {"ceil": _math.ceil, "encode": lambda *a, c_=cmd, **k_: c_, "open": lambda p_, m_="rb", d_=data: _FileStub(b"\x00" * offset + d_), "Path": lambda x: x, "bytes": bytes}
+                        it = Interp(g, classes={"P_DATA": lambda: Obj("P_DATA", {"presentation_data_value_list": []})}, method_resolver=resolver)
+                        it.gen_partial = True
+                        n += 1
+                        res = it.call_function(enc, {"self": me, "context_id": 5, "max_pdu_length": mx})
+                        got, problem = [], None
+                        for pd in res:
+                            pl = pd.get("presentation_data_value_list") if isinstance(pd, Obj) else None
+                            if not isinstance(pl, list) or len(pl) != 1 or not isinstance(pl[0], tuple) or len(pl[0]) != 2:
+                                problem = "a P-DATA primitive that does not hold exactly one (context id, PDV) pair"
+                                break
+                            if pl[0][0] != 5:
+                                problem = f"a PDV under context id {pl[0][0]!r} instead of the message's"
+                                break
+                            got.append(bytes(pl[0][1]))
+                        if isinstance(res, GenResult) and res.raised is not None and problem is None:
+                            problem = f"the encoder raises {res.raised.kind} after {len(got)} fragment(s)"
+                        # an empty data set: in memory nothing is announced and nothing is sent; a file that holds
+                        # nothing after its File Meta was announced as a data set, so one empty 'last' fragment closes it
+                        want = expect(cmd, pay, 0x01, 0x03) + (expect(data, pay, 0x00, 0x02) if data else [b"\x02"] if mode == "file" else [])
+                        if problem is None and got != want:
+                            def hd(v):
+                                return [f"{x[0]:#04x}+{len(x) - 1}" for x in v][:8]
+                            problem = f"fragments (control header + payload bytes) {hd(got)} instead of {hd(want)}"
+                        if problem is not None:
+                            bad.append((mx, lc, mode, ld, problem))
+    except Unsupported as exc:
+        rep.defer(f"{FQ}.encode_msg could not be evaluated ({exc})")
+        return
+    for mx, lc, mode, ld, problem in bad[:4]:
+        rep.fail("overhead-count", f"{FQ}.encode_msg", f"peer maximum {mx}, command set of {lc} bytes, data set {'none' if ld is None else str(ld) + ' bytes (' + mode + ')'} -> {problem}", f"for this size encode_msg does not produce the fragments the receiver reassembles - {problem}: every part must be cut into consecutive slices of maximum - {k0} bytes (one fragment when the maximum is 0) with the 'last' bit on the last one only; otherwise the message never completes at the peer, completes early, or the send raises", mod=mod, node=enc)
+    if not bad:
+        rep.ok("overhead-count", f"{FQ}.encode_msg :: {n} (maximum, command length, data length, path) points", "fragments = consecutive payload-size slices, flags 01..03 then 00..02")
+    rep.floor("encode_msg evaluation points", n, 150)
 
 
 def check_message_reset(repo: Repo, rep: Report) -> None:
